@@ -86,6 +86,7 @@ type Ctx struct {
 	usedAxioms  map[string]bool
 	warned      map[string]bool
 	needStrSub  bool
+	allGhosts   map[string]bool
 	usesBSeq    bool
 	defs        map[string]string
 	paramTerms  []Value
